@@ -847,6 +847,26 @@ func sameTestSkipped(tb *TermBuilder, cb *ssa.Function, deb string, blk, appBlk 
 	if g == nil {
 		return ""
 	}
+	// a later test stands between G and the shift that is not a test of the window as the rule knows it (the
+	// other strand searched in a mirrored cut, a helper): the shift is that test's, and the rule does not read it
+	later := false
+	for _, a := range pathCond(tb, cb.Blocks[0], blk).atoms() {
+		a.Atom.walk(func(x *Term) {
+			cl, ok := x.V.(*ssa.Call)
+			if !ok || x.Op != "call" || cl.Parent() != cb || cl == g {
+				return
+			}
+			if _, isB := cl.Call.Value.(*ssa.Builtin); isB {
+				return
+			}
+			if cl.Block().Dominates(blk) && g.Block().Dominates(cl.Block()) && cl.Block() != g.Block() {
+				later = true
+			}
+		})
+	}
+	if later {
+		return ""
+	}
 	// the loops whose iteration selects what G looks for
 	heads := map[*ssa.BasicBlock]bool{}
 	seen := map[ssa.Value]bool{}
